@@ -2,8 +2,10 @@ package ir
 
 import (
 	"fmt"
+	"go/constant"
 	"go/token"
 	"go/types"
+	"os"
 
 	"golang.org/x/tools/go/ssa"
 )
@@ -22,7 +24,9 @@ type Builder struct {
 	// (expanded later by ExpandInline).
 	InlineOK func(*ssa.Function) bool
 	// Bind gives values (calls expanded in place by the path enumerator) their term.
-	Bind   map[ssa.Value]*Term
+	Bind map[ssa.Value]*Term
+	// IDOff shifts the identifiers of local allocations / unresolved values (context-sensitive inlining).
+	IDOff  int
 	memo   map[ssa.Value]*Term
 	allocN map[ssa.Value]int
 	busy   map[ssa.Value]bool
@@ -39,7 +43,7 @@ func (b *Builder) Reset() { b.memo = map[ssa.Value]*Term{} }
 // same function: the numeric part of its SSA register name (t17 -> 17).
 func (b *Builder) id(v ssa.Value) int {
 	if n, ok := b.allocN[v]; ok {
-		return n
+		return n + b.IDOff
 	}
 	n := 0
 	name := v.Name()
@@ -57,7 +61,7 @@ func (b *Builder) id(v ssa.Value) int {
 		n = 100000 + len(b.allocN)
 	}
 	b.allocN[v] = n
-	return n
+	return n + b.IDOff
 }
 
 func paramIndex(p *ssa.Parameter) int {
@@ -104,13 +108,23 @@ func (b *Builder) Addr(v ssa.Value) *Term {
 	case *ssa.FieldAddr:
 		return Field(b.Term(x.X), fieldVar(x))
 	case *ssa.IndexAddr:
-		return &Term{Op: OIndex, Args: []*Term{b.Term(x.X), b.Term(x.Index)}}
+		return indexTerm(b.Term(x.X), b.Term(x.Index))
 	case *ssa.Global:
 		return &Term{Op: OGlobal, Obj: x.Object()}
 	case *ssa.Alloc:
 		return &Term{Op: OAlloc, N: b.id(x)}
 	}
 	return &Term{Op: "deref", Args: []*Term{b.Term(v)}}
+}
+
+// indexTerm: an element of a reconstructed element list at a constant index is that element.
+func indexTerm(base, idx *Term) *Term {
+	if base.Op == "list" && isIntConst(idx) {
+		if i, ok := constant.Int64Val(idx.C); ok && i >= 0 && int(i) < len(base.Args) {
+			return base.Args[i]
+		}
+	}
+	return &Term{Op: OIndex, Args: []*Term{base, idx}}
 }
 
 func (b *Builder) term(v ssa.Value) *Term {
@@ -136,9 +150,9 @@ func (b *Builder) term(v ssa.Value) *Term {
 		return &Term{Op: OAddr, Args: []*Term{b.Addr(v)}}
 	case *ssa.Field:
 		st := x.X.Type().Underlying().(*types.Struct)
-		return Field(b.Term(x.X), st.Field(x.Field))
+		return FieldOf(b.Term(x.X), st.Field(x.Field))
 	case *ssa.Index:
-		return &Term{Op: OIndex, Args: []*Term{b.Term(x.X), b.Term(x.Index)}}
+		return indexTerm(b.Term(x.X), b.Term(x.Index))
 	case *ssa.UnOp:
 		switch x.Op {
 		case token.MUL:
@@ -246,6 +260,10 @@ func (b *Builder) call(x *ssa.Call) *Term {
 		args = append(args, b.Term(a))
 	}
 	if bi, ok := cc.Value.(*ssa.Builtin); ok {
+		if bi.Name() == "len" && len(args) == 1 && args[0].Op == "list" {
+			// the length of a reconstructed element list is a constant
+			return Const(constant.MakeInt64(int64(len(args[0].Args))), types.Typ[types.Int])
+		}
 		return &Term{Op: OBuiltin, Str: bi.Name(), Args: args, Pos: x.Pos()}
 	}
 	callee := cc.StaticCallee()
@@ -357,6 +375,9 @@ func (b *Builder) varargs(x *ssa.Slice) *Term {
 			for _, rr := range *irefs {
 				st, ok := rr.(*ssa.Store)
 				if !ok || st.Addr != ssa.Value(ia) {
+					if debugInline {
+						fmt.Fprintf(os.Stderr, "varargs: cell referrer %T %v\n", rr, rr)
+					}
 					return nil
 				}
 				if elems[i] != nil {
@@ -366,6 +387,9 @@ func (b *Builder) varargs(x *ssa.Slice) *Term {
 			}
 		case *ssa.Slice:
 		default:
+			if debugInline {
+				fmt.Fprintf(os.Stderr, "varargs: referrer %T %v\n", r, r)
+			}
 			return nil
 		}
 	}
